@@ -1,6 +1,10 @@
 import ExoVerif.Driver.Common
 import ExoVerif.Model.ValSet
-/- driver for the C06 correspondence: ops `vs.reset`, `vs.init total k:p,…`, `vs.epoch maxVals op:key:power:rev,…`, `vs.block` -/
+import ExoVerif.Model.ConsKeys
+/- driver for the C06 correspondence: ops `vs.reset`, `vs.init total k:p,…`, `vs.epoch maxVals op:key:power:rev,…`, `vs.block`,
+   and the key operations of the domain, replayed one step at a time on the observed pre-state with the registry model
+   (`vs.setkey` / `vs.optin op key registered optedIn jailed|selfOK removing cur prev rev(key) rev(cur)`): outcome, the
+   operator's key afterwards, who the new and the old key resolve to, whether the old key was queued for pruning -/
 namespace ExoVerif.Driver.ValSet
 open ExoVerif.ValSet ExoVerif.Driver
 
@@ -25,8 +29,48 @@ def showVals (vs : VSet) : String :=
 def showState (s : DState) (ups : List Upd) : String :=
   s!"U={showUpds ups}|S={showUpds s.valUpdates}|V={showVals s.vals}|T={s.lastTotalPower}"
 
+def optNat (t : String) : Option Nat := if t == "-" then none else some (parseNat! t)
+def showOpt (o : Option Nat) : String := match o with | some k => toString k | none => "-"
+
+def showOut : ExoVerif.ConsKeys.Out → String
+  | .ok => "ok" | .errNotOperator => "ErrOperatorNotExist" | .errAlreadyOptedIn => "ErrAlreadyOptedIn"
+  | .errMinDelegation => "ErrMinDelegationNotMet" | .errAlreadyRemovingKey => "ErrAlreadyRemovingKey"
+  | .errConsKeyInUse => "ErrConsKeyAlreadyInUse" | .errNotOptedIn => "ErrNotOptedIn" | .panic => "panic"
+
+/-- the slice of the registry one key operation of `op` with `key` reads, around the validator set `d` -/
+def keySt (d : DState) (op key : Nat) (reg inn jl rm : Bool) (cur prev rk rc : Option Nat) : ExoVerif.ConsKeys.St :=
+  let s0 := ExoVerif.ConsKeys.St.init 64 64 0 0
+  let rev0 : Nat → Option Nat := match cur with
+    | some c => ExoVerif.ConsKeys.upd s0.rev c rc
+    | none => s0.rev
+  { s0 with registered := ExoVerif.ConsKeys.upd s0.registered op reg,
+            hasInfo := ExoVerif.ConsKeys.upd s0.hasInfo op (inn || jl),
+            optedIn := ExoVerif.ConsKeys.upd s0.optedIn op inn,
+            jailed := ExoVerif.ConsKeys.upd s0.jailed op jl,
+            removing := ExoVerif.ConsKeys.upd s0.removing op rm,
+            fwd := ExoVerif.ConsKeys.upd s0.fwd op cur, fwd2 := ExoVerif.ConsKeys.upd s0.fwd2 op cur,
+            prevKey := ExoVerif.ConsKeys.upd s0.prevKey op prev,
+            rev := ExoVerif.ConsKeys.upd rev0 key rk,
+            vs := d }
+
+def showKeyOp (r : ExoVerif.ConsKeys.Out × ExoVerif.ConsKeys.St) (op key : Nat) (cur : Option Nat) : String :=
+  let s' := r.2
+  let ro := match cur with | some c => showOpt (s'.rev c) | none => "-"
+  let q := match cur with
+    | some c => if (s'.addrsToPrune (ExoVerif.ConsKeys.completionEpoch s')).contains c then "1" else "0"
+    | none => "0"
+  s!"{showOut r.1}|{showOpt (s'.fwd op)}|{showOpt (s'.rev key)}|{ro}|{q}"
+
 def step (s : DState) (w : List String) : DState × String :=
   match w with
+  | ["vs.setkey", op, key, reg, inn, jl, rm, cur, prev, rk, rc] =>
+    let op := parseNat! op; let key := parseNat! key
+    let st := keySt s op key (reg == "1") (inn == "1") (jl == "1") (rm == "1") (optNat cur) (optNat prev) (optNat rk) (optNat rc)
+    (s, showKeyOp (ExoVerif.ConsKeys.setKey st op key) op key (optNat cur))
+  | ["vs.optin", op, key, reg, inn, ok, rm, cur, prev, rk, rc] =>
+    let op := parseNat! op; let key := parseNat! key
+    let st := keySt s op key (reg == "1") (inn == "1") false (rm == "1") (optNat cur) (optNat prev) (optNat rk) (optNat rc)
+    (s, showKeyOp (ExoVerif.ConsKeys.optIn st op key (ok == "1")) op key (optNat cur))
   | ["vs.reset"] => ({ vals := [], lastTotalPower := 0, valUpdates := [] }, "ok")
   | ["vs.init", t, vals] => ({ vals := parseVals vals, lastTotalPower := parseInt! t, valUpdates := [] }, "ok")
   | ["vs.epoch", m, cands] =>
